@@ -165,6 +165,23 @@ func C14Indexed(t *testing.T, i int, seedBase uint64) (*Plan, bool) {
 	}
 	p := c14Plan(cs, seed, fmt.Sprintf("random event=%v fields=%v keepOrder=%v addrFilter=%v", cs.event, cs.fields, cs.keepOrder, cs.addrFilter != nil))
 	p.Seed = seed
+	if g.chance(30) {
+		// the table definition spells out columns of automatically required
+		// fields (no block entry for them): they are requested and written all
+		// the same
+		d := p.Decls[0]
+		for _, idc := range []string{"ig_name", "src_name", "block_num", "tx_idx", "log_idx"} {
+			has := false
+			for _, c := range d.Table.Columns {
+				has = has || c.Name == idc
+			}
+			if has || (idc == "log_idx" && !cs.event) || !g.chance(60) {
+				continue
+			}
+			d.Table.Columns = append(d.Table.Columns, model.Col{Name: idc, Type: FieldType[idc]})
+			p.Note += " +col:" + idc
+		}
+	}
 	if g.chance(45) {
 		// a second integration on the same source and range with a data plan
 		// of its own: whatever one plan leaves in the source client's caches
